@@ -20,8 +20,10 @@ def roundtrip_problem(cs, T, v, dumped, eof=False):
     r = structs.parse(cs, "main", dumped + (b"" if eof else b"\xee" * 3), 0)
     if r[0] != "ok":
         return {"observed": f"parsing dumps(v) raises {type(r[1]).__name__}: {r[1]}", "expected": "v"}
+    from .C08 import strip_union_buffers       # unions are compared by their members (padding common to all members aside)
+
     try:
-        a, b = structs.py_value(v, T), structs.py_value(r[1], T)
+        a, b = strip_union_buffers(structs.py_value(v, T)), strip_union_buffers(structs.py_value(r[1], T))
     except structs.HasNaN:
         return None
     if a != b:
